@@ -180,7 +180,11 @@ def assertion_text(loc):
     global _header_lines
     import os
     if _header_lines is None:
-        repo = os.environ.get('VERIF_REPO', '/repo')
+        try:
+            import vlib as _V
+            repo = _V.src_root()
+        except Exception:
+            repo = os.environ.get('VERIF_REPO', '/repo')
         try:
             _header_lines = open(os.path.join(repo, 'include', 'hfsm2', 'machine.hpp'), errors='replace').read().split('\n')
         except OSError:
